@@ -396,13 +396,16 @@ fn main() {
     // long family uses the probability pairs and seeds of the "other probabilities" part
     {
         let lens = tu_verif::enumerate::threshold_lengths(run.pick(8, 10));
-        run.bounds.insert("long_phase".into(), json!(format!("character counts {lens:?} x 3 clean repeated patterns x use_graphemes x (p = 1/2, 1/2 and the {} other probability pairs) x {EXTRA_SEEDS} seeds", EXTRA_PROBS.len())));
+        run.bounds.insert("long_phase".into(), json!(format!("character counts {lens:?} x (3 clean repeated patterns, 2 short texts around one grapheme cluster of that many code points) x use_graphemes x (p = 1/2, 1/2 and the {} other probability pairs) x {EXTRA_SEEDS} seeds", EXTRA_PROBS.len())));
         for (k, n) in lens.iter().enumerate() {
             if !run.unit((all.len() + k) as u64) {
                 continue;
             }
-            for pat in [&["a"][..], &["a", "ä", " "][..], &["e\u{301}", "a", "a", " ", "ä"][..]] {
-                let text = tu_verif::enumerate::repeat_symbols(pat, *n).trim().to_string();
+            // (and two short texts around one grapheme cluster of n code points)
+            let w = format!("a{}", "\u{301}".repeat(*n - 1));
+            let mut texts: Vec<String> = [&["a"][..], &["a", "ä", " "][..], &["e\u{301}", "a", "a", " ", "ä"][..]].iter().map(|pat| tu_verif::enumerate::repeat_symbols(pat, *n).trim().to_string()).collect();
+            texts.extend([format!("x{w}y b"), format!("{w} {w}b")]);
+            for text in texts {
                 for g in [false, true] {
                     if !refs::is_clean(&text, g) {
                         continue;
